@@ -569,7 +569,7 @@ def build_cases(ctx, rng, deep=False, counts=None):
         q = Poly([(rng.randint(-8, 8) / 8.0, rng.randint(-8, 8) / 8.0) for _ in range(rng.randint(5, 6))])
         a, b = rng.randint(-6, 0) / 4.0, rng.randint(1, 6) / 4.0
         c, dd = rng.randint(-6, 0) / 4.0, rng.randint(1, 6) / 4.0
-        m = {"m": "asimp", "tol": hx(2.0 ** -rng.randint(8, 20)), "depth": rng.choice([2, 3, 6])}
+        m = {"m": "asimp", "tol": hx(2.0 ** -rng.randint(8, 16)), "depth": rng.choice([2, 3, 4])}
         j = {"id": C.jid("t"), "op": "int2", "method": m, "a": hx(a), "b": hx(b), "c": hx(c), "d": hx(dd),
              "f": {"t": "sep", "p": p.job(), "q": q.job()}, "limit_ms": LIMIT_2D_MS}
         C.add(j)
